@@ -15,7 +15,8 @@ from .core import canon
 
 montepy = mp.montepy
 
-HANG_S = 60  # generous: the machine may be heavily loaded
+RUNAWAY_ITEMS = 20000  # no generated case has more than a few hundred inputs: a reader that yields this many loops
+HANG_S = 30  # generous: the machine may be heavily loaded
 KNOWN_ERRS = {"ParsingError", "MalformedInputError", "UnsupportedFeature", "FileNotFoundError"}
 
 
@@ -118,6 +119,8 @@ def impl_syntax(case):
                 try:
                     given = sb.given(case["main"], case.get("abs", False))
                     for it in isr.read_input_syntax(MCNP_InputFile(given), version_of(case.get("limit", 128))):
+                        if len(items) > RUNAWAY_ITEMS:
+                            raise _Hang()
                         if it is None:
                             items.append({"k": "none"})
                         elif isinstance(it, mcnp_input.Message):
@@ -128,6 +131,7 @@ def impl_syntax(case):
                             items.append({"k": "input", "bt": it.block_type.value, "lines": list(it.input_lines)})
                 except _Hang:
                     err = "HANG"
+                    del items[20:]  # what an endless run yielded is of no interest beyond its beginning
                 except Exception as e:  # noqa: BLE001
                     err = errclass(e)
                 finally:
